@@ -32,18 +32,19 @@ LEVEL_NOTE = 'Trusts clang 14 AST and sa/; strptime and the zone lookup are outs
 TECHNIQUE = 'per-call-site abstract interpretation of ParseInt<T> + guard-edge reachability on the CFG + cursor typestate'
 
 I64 = (-2 ** 63, 2 ** 63 - 1)
-# documented table: (case label chars, extra format chars, destination suffix) -> (lo, hi, width, exact)
+# documented table: (case label char, destination) -> (lo, hi, width, exact); destination = the struct tm field, '*' for a
+# local of parse(), '#n' for the n-th field parsed by ParseOffset (hours, minutes, seconds)
 DOC = {
-    ('Y', 'year'): (I64[0], I64[1], 0, None),
+    ('Y', '*'): (I64[0], I64[1], 0, None),
     ('m', 'tm_mon'): (1, 12, 2, None),
     ('d', 'tm_mday'): (1, 31, 2, None), ('e', 'tm_mday'): (1, 31, 2, None),
-    ('U', 'week_num'): (0, 53, 0, None), ('W', 'week_num'): (0, 53, 0, None),
+    ('U', '*'): (0, 53, 0, None), ('W', '*'): (0, 53, 0, None),
     ('u', 'tm_wday'): (1, 7, 0, None), ('w', 'tm_wday'): (0, 6, 0, None),
     ('H', 'tm_hour'): (0, 23, 2, None), ('M', 'tm_min'): (0, 59, 2, None), ('S', 'tm_sec'): (0, 60, 2, None),
-    ('s', 'percent_s'): (I64[0], I64[1], 0, None),
+    ('s', '*'): (I64[0], I64[1], 0, None),
     ('E', 'tm_sec'): (0, 60, 2, None),
-    ('E', 'year'): (-999, 9999, 4, 4),
-    ('offset', 'hours'): (0, 23, 2, 2), ('offset', 'minutes'): (0, 59, 2, 2), ('offset', 'seconds'): (0, 59, 2, 2),
+    ('E', '*'): (-999, 9999, 4, 4),
+    ('offset', '#1'): (0, 23, 2, 2), ('offset', '#2'): (0, 59, 2, 2), ('offset', '#3'): (0, 59, 2, 2),
 }
 
 
@@ -113,15 +114,32 @@ def run(ctx):
             if x.get('kind') == 'CallExpr' and callee(x) and callee(x)[0] == 'fn' and callee(x)[1].get('name') == 'ParseInt':
                 sites.append((fk, uu, ff, x, where))
     n_data = 0
+    n_off = 0
+    # the input cursor of parse(): the local initialised from the characters of the input string (second parameter)
+    pkeys = set(['%s#%s' % (params_of(f)[1]['name'], params_of(f)[1]['id'])])      # parse(format, input, ...): the input
+    data_keys = set()
+    for d_ in walk(f):
+        if d_.get('kind') == 'VarDecl' and kids(d_) and (dtype(d_) or qtype(d_)).replace(' ', '').startswith('constchar*'):
+            m_ = re.match(r'^(\w+#0x[0-9a-f]+)\.(c_str|data)\(\)$', K.key(kids(d_)[-1]))
+            if m_ and m_.group(1) in pkeys:
+                data_keys.add('%s#%s' % (d_.get('name'), d_['id']))
+    if len(data_keys) != 1:
+        raise AnalysisBroken('C09-range: the input cursor of parse() was not found (%d candidates)' % len(data_keys))
     for (fk, uu, ff, x, where) in sites:
         args = call_args(x)
         src = peel(args[0])
         sk = Keys(uu).key(args[0])
-        if where == 'parse' and not sk.startswith('data#'):
+        if where == 'parse' and sk not in data_keys:
             continue            # format-directed (digit count of %E#S)
         n_data += 1
         dest = Keys(uu).key(args[4])
         dsuf = re.sub(r'#0x[0-9a-f]+', '', dest).strip('&()').split('.')[-1]
+        dname = dsuf
+        if where == 'parse' and not dsuf.startswith('tm_'):
+            dsuf = '*'                   # a local of parse(): identified by the specifier alone
+        elif where != 'parse':
+            n_off = n_off + 1
+            dsuf = '#%d' % n_off         # ParseOffset: hours, minutes, seconds in source order
         labs = _case_labels(x) if where == 'parse' else ['offset']
         width = Folder(uu).fold(args[1])
         # abstract interpretation of this very call
@@ -148,11 +166,11 @@ def run(ctx):
         for lab in labs:
             if (lab, dsuf) in DOC:
                 key = (lab, dsuf)
-        inst = '%%%s -> %s' % ('/'.join(labs), dsuf) if where == 'parse' else 'offset %s' % dsuf
+        inst = '%%%s -> %s' % ('/'.join(labs), dname) if where == 'parse' else 'offset %s' % dname
         if key is None:
             ctx.bad('C09-range', inst + ' is a documented numeric field', x,
                     'a numeric field is parsed for a specifier/destination pair the documentation does not list (%s, %s)' % (labs, dsuf),
-                    construct='range:undocumented:%s:%s' % ('/'.join(labs), dsuf))
+                    construct='range:undocumented:%s:%s' % ('/'.join(labs), dname))
             continue
         lo, hi, w, ex = DOC[key]
         ok = isinstance(got, Int) and (got.lo, got.hi) == (lo, hi) and width == w and exact == ex
@@ -161,7 +179,7 @@ def run(ctx):
                   'documented range is accepted or one inside it rejected' % (
                       got, width, ', exact-width test %s' % exact if exact or ex else '', lo, hi, w or 'any number of',
                       ', exactly %d characters' % ex if ex else ''),
-                  construct='range:%s:%s' % ('/'.join(labs), dsuf), detail='%s w=%s exact=%s' % (got, width, exact))
+                  construct='range:%s:%s' % ('/'.join(labs), dname), detail='%s w=%s exact=%s' % (got, width, exact))
     ctx.minimum('C09-range', 16)
 
     # ---- C09-range (offset parser): the cursor handed back ends right after a complete two-digit field
@@ -221,8 +239,7 @@ def run(ctx):
                 if l == lab and _reach(g, m, targets):
                     return False
         return bool(edges)
-    datak = [k_ for k_ in ('%s#%s' % (d.get('name'), d.get('id')) for d in walk(f) if d.get('kind') == 'VarDecl' and d.get('name') == 'data')]
-    dk = datak[0] if datak else 'data'
+    dk = list(data_keys)[0]
     e_nonnull = edges_where(lambda ft: ft[0] == '!=' and set(ft[1:]) == set((dk, 'null')))
     e_end = edges_where(lambda ft: ft[0] == '==' and set(ft[1:]) == set(('*(%s)' % dk, 'n:0')))
     for (tn, nm) in ((early, '%s return'), (final, 'final return')):
@@ -238,8 +255,17 @@ def run(ctx):
               'final return only if the civil time kept month and day (no normalisation)', final.ast,
               'parse() can accept a date whose day does not exist in its month (e.g. Sep 31 read as Oct 1)',
               construct='exit:normalisation')
-    e_max = edges_where(lambda ft: ft[0] == '<' and 'max()' in ft[1] + ft[2] and 'offset' in ft[1] + ft[2])
-    e_min = edges_where(lambda ft: ft[0] == '<' and 'min()' in ft[1] + ft[2] and 'offset' in ft[1] + ft[2])
+    # the UTC offset local of parse(): what ParseOffset writes through its last argument
+    offk = None
+    for x_ in walk(f):
+        if x_.get('kind') == 'CallExpr' and callee(x_) and callee(x_)[0] == 'fn' and callee(x_)[1].get('name') == 'ParseOffset':
+            la = peel(call_args(x_)[-1], explicit=False)
+            if la.get('kind') == 'UnaryOperator' and la.get('opcode') == '&':
+                offk = K.key(kids(la)[0])
+    if offk is None:
+        raise AnalysisBroken('C09-exit: the offset local of parse() was not found')
+    e_max = edges_where(lambda ft: ft[0] == '<' and 'max()' in ft[1] + ft[2] and offk in ft[1] + ft[2])
+    e_min = edges_where(lambda ft: ft[0] == '<' and 'min()' in ft[1] + ft[2] and offk in ft[1] + ft[2])
     ctx.check(cannot_follow(e_max, [final]) and cannot_follow(e_min, [final]), 'C09-exit',
               'offset adjustment beyond civil_second::max()/min() is rejected', final.ast,
               'a path on which cs -/+ offset would leave the civil range still reaches the accepting return',
